@@ -18,6 +18,7 @@
 -/
 import RoModel.DriverCore
 import RoModel.Subjects
+import RoModel.SubjectsX
 import RoModel.Spec.Subjects
 namespace Ro.Driver.Drivers.Subject
 open Ro Ro.Driver Ro.Subj
@@ -89,11 +90,6 @@ def run (c : Case) : String :=
   where the subscriber closed itself; what the subscription delivered to a subscriber that was closed by then went to the
   dropped-notification hook instead. -/
 
-inductive XOp
-  | plain (o : Op Int)
-  | dead (i : Nat) (c : Ctx)       -- X i
-  | selfUnsub (i : Nat) (c : Ctx)  -- Y i
-
 def parseXOp (k : Nat) (t : String) : Option XOp :=
   match t.toList with
   | 'X' :: r => (String.ofList r).toNat?.map (fun i => XOp.dead i (opCtx k))
@@ -103,45 +99,6 @@ def parseXOp (k : Nat) (t : String) : Option XOp :=
 def parseXOps (s : String) : Option (List XOp) :=
   if s == "-" || s == "" then some []
   else ((s.splitOn ",").zipIdx).mapM (fun p => parseXOp (p.2 + 1) p.1)
-
-/-- give subscriber `i` the trace `keep` and hand `dropped` to the hook -/
-def rewrite (s : State Int) (i : Nat) (keep dropped : List (Notif Int)) : State Int :=
-  let s := s.modSub i (fun x => { x with got := keep })
-  { s with drops := s.drops ++ dropped }
-
-/-- after a step: every armed (`Y`, no value seen yet) subscriber that has just been delivered something closes itself after
-    the first value; the rest of what that step delivered to it was refused -/
-def settle (k : Kind Int) (before s : State Int) (armed : List Nat) (replay : Bool) : State Int × List Nat :=
-  armed.foldl (fun (acc : State Int × List Nat) i =>
-    let (s, still) := acc
-    let old := (before.sub i).got
-    let new := ((s.sub i).got).drop old.length
-    match new with
-    | [] => (s, still ++ [i])
-    | .next c v :: rest =>
-      -- during its own Subscribe the rest of the replay is handed to the closed subscriber (refused: dropped hook); during a
-      -- broadcast (async's Complete: the value loop, then the completion loop) the subscriber has left the observer map by
-      -- the time the second loop runs: it is simply not visited
-      let s := rewrite s i (old ++ [.next c v]) (if replay then rest else [])
-      (k.step s (.unsubscribe i), still)
-    | _ => (s, still)) (s, [])
-
-def stepX (k : Kind Int) (st : State Int × List Nat) : XOp → State Int × List Nat
-  | .plain o =>
-    let (s, armed) := st
-    settle k s (k.step s o) armed false
-  | .dead i c =>
-    let (s, armed) := st
-    let old := (s.sub i).got
-    let s1 := k.step s (.subscribe i c)
-    let delivered := ((s1.sub i).got).drop old.length
-    let s2 := k.step (rewrite s1 i old delivered) (.unsubscribe i)
-    (s2, armed)
-  | .selfUnsub i c =>
-    let (s, armed) := st
-    let s1 := k.step s (.subscribe i c)
-    let (s2, still) := settle k s s1 [i] true
-    (s2, armed ++ still)
 
 def runX (c : Case) : String :=
   match parseKind (c.getD "op" "?") (parseInts (c.getD "p" "-")), parseXOps (c.getD "src" "-") with
